@@ -13,6 +13,9 @@ Three streams:
     multi-line spans of CR/LF/CRLF programs, and on every span the parser / resolver produced in the
     monitor run, against the extracted Render.v: line, column, caret and dash counts AND the text of the
     printed source lines; a panic on a well-formed span is a property failure;
+  * many diagnostics in one text (200 ... 5000, thorough 20 000; lexer / parser recovery / static errors /
+    warnings; LF and CRLF) through the monitor and the real binary: nothing dies, exit status as
+    documented, as many diagnostics rendered as produced;
   * gate: the shipped `naija` binary on marked programs: a text with an error-level diagnostic
     must not start the runtime (the marker must not be printed, exit status must be a failure).
 """
@@ -963,6 +966,107 @@ def compare_render(env, name, lines, impl_given=None):
     return failures, disagreements, len(lines)
 
 
+# ---------------------------------------------------------------------------- many diagnostics in one text
+
+KEY_MANY = "many-diagnostics-abort"
+MANY_SYNTAX = ["shout(1", "make make get 1", "x.", "start ) end"]
+
+
+def many_text(kind, n, nl):
+    """A text that makes one producer emit about n diagnostics, mixed with valid lines."""
+    L = []
+    for k in range(n):
+        fill = k % 4 == 0
+        if kind == "lexical":
+            L.append("@" if k % 3 else "make w%d get 1 $" % k)
+            if fill:
+                L.append("make v%d get %d" % (k, k))
+        elif kind == "syntax":
+            L.append(MANY_SYNTAX[k % len(MANY_SYNTAX)])
+            L.append("make v get 1")                      # a statement keyword: where recovery stops
+        elif kind == "undeclared":
+            L.append("u%d" % k if k % 2 else "shout(u%d)" % k)
+            if fill:
+                L.append("shout(%d)" % k)
+        elif kind == "unused":            # warnings only: the program is accepted and runs
+            if k % 2 == 0:
+                L.append("make v%d get %d" % (k, k))
+        elif kind == "type":
+            L.append('shout(%d minus "a")' % k if k % 2 else "shout(not %d)" % k)
+            if fill:
+                L.append("shout(%d)" % k)
+    return nl.join(L) + nl
+
+
+HEADER_RE = re.compile(rb"(?m)^\x1b\[1m\x1b\[3[134]m(?:error|warning|note)\[")
+
+
+def many_diagnostics_stream(env):
+    """Texts with hundreds to thousands of diagnostics of one producer (lexer, parser with recovery,
+    static errors, static warnings), LF and CRLF.  Oracle: the monitor run (span_wf of every span, no
+    panic / death, the set renders and contains one location line per diagnostic) and the real naija
+    binary: exit status 1 (0 for warnings only), no panic / abort / signal / timeout, and as many
+    rendered diagnostics as the front end produced."""
+    quick = env.tier == "quick"
+    sizes = [200, 1000, 5000] if quick else [200, 1000, 5000, 20000]
+    ok, out = common.build_naija()
+    bin_ = common.naija_bin() if ok else None
+    jobs = [(kind, n, nl) for n in sizes for kind in ("lexical", "syntax", "undeclared", "unused", "type")
+            for nl in (("\n", "\r\n") if n <= 5000 else ("\r\n",))]
+    jobs.sort(key=lambda j: -j[1])          # longest first
+    limit = 180 if quick else 1500         # measured: 5000 diagnostics on 50 KB take 4-15 s in the debug binary
+
+    def one(job):
+        kind, n, nl = job
+        name = "many_%s_%d_%s" % (kind, n, "crlf" if nl == "\r\n" else "lf")
+        text = many_text(kind, n, nl)
+        t0 = time.time()
+        r = run_impl_shard(env, name, [hx(text)], release=(n > 5000), per_case_timeout=limit, nolex=True)
+        lines, status = r.get(0, ([], "died:?"))
+        probs = oracle(lines, status)
+        produced = None
+        for l in lines:
+            w = l.split()
+            if w and w[0] == "RCOUNT" and w[2] != w[3]:
+                probs.append("rendered %s of %s %s diagnostics" % (w[2], w[3], w[1]))
+            if w and w[0] in ("PD", "RS"):
+                produced = int(w[1])
+        gate = next((l.split()[1] for l in lines if l.startswith("GATE ")), None)
+        obs = {"kind": kind, "n": n, "nl": "CRLF" if nl == "\r\n" else "LF", "bytes": len(text.encode()), "produced": produced}
+        if bin_ and n <= 5000 and not probs:
+            path = os.path.join(env.work, name + ".ns")
+            open(path, "w", encoding="utf-8", newline="").write(text)
+            try:
+                p = subprocess.run([bin_, path], stdout=subprocess.PIPE, stderr=subprocess.PIPE, timeout=limit, stdin=subprocess.DEVNULL)
+                rc, outb = p.returncode, p.stdout + p.stderr
+            except subprocess.TimeoutExpired:
+                rc, outb = "timeout", b""
+            rendered = len(HEADER_RE.findall(outb))
+            want_rc = 0 if gate == "run" else 1
+            obs.update({"naija_rc": rc, "rendered": rendered})
+            if rc != want_rc:
+                msg = [l for l in outb.decode("utf-8", "replace").splitlines() if "panicked at" in l or "memory allocation" in l or "overflow" in l]
+                probs.append("naija exit %s (expected %d) %s" % (rc, want_rc, " | ".join(msg)[:200]))
+            elif produced is not None and rendered != produced:
+                probs.append("naija rendered %d diagnostics, the front end produced %d" % (rendered, produced))
+        if produced is not None and produced < n // 2:
+            obs["weak"] = "only %d diagnostics for n=%d (recovery merged them)" % (produced, n)
+        obs["seconds"] = round(time.time() - t0, 1)
+        return obs, probs, text
+
+    failures, report = [], []
+    with concurrent.futures.ThreadPoolExecutor(max_workers=12) as ex:
+        for obs, probs, text in ex.map(one, jobs):
+            report.append(obs)
+            if probs and not any(f["key"] == KEY_MANY for f in failures):
+                failures.append({"key": KEY_MANY, "case": hx(text) if len(text) < 20000 else "-", "text": text[:300] + " ...",
+                                 "generator": "many_text(%r, %d, %r)" % (obs["kind"], obs["n"], "\r\n" if obs["nl"] == "CRLF" else "\n"),
+                                 "observed": "; ".join(probs)[:500], "shape": obs})
+            elif probs:
+                failures[-1].setdefault("also", []).append("%s n=%d %s: %s" % (obs["kind"], obs["n"], obs["nl"], probs[0][:120]))
+    return {"many_diagnostics": report}, failures
+
+
 def gate_stream(env, progs, n):
     """The real naija binary: a marked program with an error-level diagnostic must not run."""
     ok, out = common.build_naija()
@@ -1130,6 +1234,12 @@ def correspond(env, searching=False, model=True):
         evaluations += n2
         extra["render_frontend_spans"] = n1
         extra["render_wf_span_cases"] = n2
+    t_many = time.time()
+    m_extra, m_fail = many_diagnostics_stream(env)
+    extra.update(m_extra)
+    extra["many_diagnostics_s"] = round(time.time() - t_many, 1)
+    evaluations += len(m_extra["many_diagnostics"])
+    failures += m_fail
     g_extra, g_fail = gate_stream(env, base_programs(), 120 if env.tier == "quick" else 1500)
     extra.update(g_extra)
     failures += g_fail
